@@ -390,7 +390,7 @@ func init() {
 	mc.Register(&mc.Check{
 		ID:    "C05",
 		Level: "exploration",
-		Rule: "operator tables: 1-3 levels x 1-2 operators per level x @left/@right per level x 3 declaration orders x {atoms, +parentheses, +unqualified call alternative, unary prefix operator sharing a binary operator's token at the tightest / loosest level}; level numerals written plainly, with leading zeros (9, 010, 011, ..) or with wide gaps (1, 20, 300, ..); " +
+		Rule: "operator tables: 1-3 levels x 1-2 operators per level x @left/@right per level x 3 declaration orders x {atoms, +parentheses, +unqualified call alternative, unary prefix operator sharing a binary operator's token at the tightest / loosest level}; level numerals written plainly, with leading zeros (9, 010, 011, ..) with wide gaps (1, 20, 300, ..) or in steps across 2^8 and 2^16 (253, 256, 259 / 65533, 65536, 65539); " +
 			"inputs: every operator/operand chain up to the operator bound and every single-parenthesisation of the shorter chains, parsed by the real runtime with the grammar's real tables; tree from the reduce sequence compared with precedence climbing; " +
 			"non-trivial = table whose chains of >= 2 operators were compared",
 		Assume: []string{"reference: precedence climbing (cmd/loxmc/c05.go precref)", "mixed associativity inside one level is outside the statement and not generated"},
